@@ -396,6 +396,9 @@ class ConsumerWorld(ClientWorld):
                 ev.append(("proc:ok", S))
             if self.menu.get("proc_fail"):
                 ev.append(("proc:fail", F))
+                # the processor's own work was cancelled (its Deferred fails with CancelledError although the
+                # consumer is not being stopped): a processing failure like any other
+                ev.append(("proc:cancelled", F))
         return ev
 
     def extra_events(self):
@@ -420,7 +423,11 @@ class ConsumerWorld(ClientWorld):
             inv.ok = False
             self.failed_offsets.update(inv.offsets)
             self.unrecoverable_seen = True
-            inv.d.errback(RuntimeError("processor failed on invocation %d" % inv.n))
+            if label == "proc:cancelled":
+                from twisted.internet.defer import CancelledError
+                inv.d.errback(CancelledError("processor's own work was cancelled on invocation %d" % inv.n))
+            else:
+                inv.d.errback(RuntimeError("processor failed on invocation %d" % inv.n))
 
     def consumer_stopped(self):
         """stop() has returned, or a shutdown has completed, since the last start()."""
@@ -585,7 +592,7 @@ class ConsumerWorld(ClientWorld):
             now, delay, name = j[self._clock_seen]
             self._clock_seen += 1
             self.retry_timers.append((now, delay, self.step, name))
-        if label.split(":")[0] in ("refuse", "drop", "silent", "proc") or "err=" in label:
+        if label.split(":")[0] in ("refuse", "drop", "silent", "proc") or "err=" in label or "corrupt=" in label:
             self.reacted = True
         self.check_step(label)
         self.step += 1
